@@ -136,6 +136,45 @@ def naming_task(p, cfg, rec):
     elaborate_text(p, text)
 
 
+def pathname_task(p, cfg, rec):
+    """two objects of one class WITHOUT structureName (so each gets a per-instance module) at hierarchy paths whose instance
+    names are built from the same characters: u_x/c and u/x_c, a/b_c/d and a_b/c_d ...; their interfaces differ, so any
+    sharing of a module between them is visible as a port/width mismatch"""
+    (n1, m1), (n2, m2) = cfg['paths']
+    with quiet():
+        s = py4hw.HWSystem()
+        a2, o2 = s.wire('a2', 2), s.wire('o2', 2)
+        a3, o3, e3 = s.wire('a3', 3), s.wire('o3', 3), s.wire('e3', 1)
+
+        def leafbox2(b):
+            Reg(b, 'r', a2, o2)
+
+        def leafbox3(b):
+            Reg(b, 'r', a3, o3, enable=e3)
+
+        def outer1(b):
+            D.Box(b, m1, {'d': a2}, {'q': o2}, leafbox2)
+
+        def outer2(b):
+            D.Box(b, m2, {'d': a3, 'en': e3}, {'q': o3}, leafbox3)
+
+        def top(b):
+            D.Box(b, n1, {'d': a2}, {'q': o2}, outer1)
+            D.Box(b, n2, {'d': a3, 'en': e3}, {'q': o3}, outer2)
+        try:
+            box = D.Box(s, 'top', {'a2': a2, 'a3': a3, 'e3': e3}, {'o2': o2, 'o3': o3}, top)
+        except Exception:
+            p.res['refused'] += 1
+            return
+    text, exc = generate(box)
+    if text is None:
+        p.res['refused'] += 1
+        p.note('%s: generator refused: %r' % (p.config, exc))
+        return
+    p.res['programs'] += 1
+    elaborate_text(p, text)
+
+
 # ---------------------------------------------------------------------------------------------------
 def sig_of(mod):
     return [(q.direction, q.name, None if q.rng is None else (elab.const_eval(q.rng[0]), elab.const_eval(q.rng[1]))) for q in mod.ports]
@@ -266,6 +305,11 @@ def tasks_for(tier, seed):
             nm = 'naming reg port_in=%s wire=%s instance=%s port_out=%s' % names
             if not any(nm == x[0] for x in t):
                 t.append((nm, naming_task, {'names': names, 'seq': True}))
+    for paths in ((('u_x', 'c'), ('u', 'x_c')), (('u', 'x_c'), ('u_x', 'c')), (('a', 'b'), ('a_b', 'b')), (('p', 'q_'), ('p_q', '')), (('x', 'x'), ('x_x', 'x')),
+                  (('n1', 'n2'), ('n1_n2', 'n2')), (('A', 'b'), ('a', 'B'))):
+        if paths[0][1] == '' or paths[1][1] == '':
+            continue
+        t.append(('hierarchy paths %s/%s and %s/%s of one per-instance class with different interfaces' % (paths[0] + paths[1]), pathname_task, {'paths': paths}))
     # one configuration per listed naming finding, so that the quick tier exercises each of them
     for seq, names in ((True, ('x', 'y', 'r0', 'clk')), (True, ('clk', 'y', 'r0', 'x')), (True, ('module', 'y', 'r0', 'reserved_module')),
                        (False, ('reserved_module', 'x', 'b0', 'module')), (True, ('w_y', 'y', 'r0', 'x')), (True, ('x', 'y', 'r0', 'w_y')),
